@@ -11,3 +11,9 @@ ASSUMPTIONS = ["lstat values recorded by the driver are the entry's real attribu
 
 def generators(tier, seed):
     return [dict(module="MC_C02", workers=2)]
+
+MANIFEST = dict(
+    design_ref='DESIGN.md §5 C02',
+    text='TLC enumerates ~1000 atoms (column x operator x literal on the value / neighbour grid, BETWEEN, column-vs-column, quoted keywords) over world W2; each is one run of the real binary; Judge_Filter accepts a run iff Must(atom) <= rows <= Must+May under the typed comparison semantics of Eval.tla (three-valued where the documentation is silent).',
+    note='Trusted: TLC, Eval/Match/Civil/Chars, lstat values recorded by the driver (size, uid, gid, nlink, mode, mtime). One fixed world of 14 entries; text patterns kept simple (C12 owns pattern corner cases).',
+    technique='TLC atom enumeration + replay + TLA+ judge (Eval.tla reference semantics)')
